@@ -7,6 +7,7 @@
 From Coq Require Import List Bool.
 Require Import Mistral.Gen.States Mistral.Model.Engine.
 Require Import Mistral.Proofs.StatesProofs Mistral.Proofs.EngineWf Mistral.Proofs.EngineSafety Mistral.Proofs.EngineMore.
+Require Import Mistral.Gen.WfGuards Mistral.Proofs.WfGuardProofs.
 Import ListNotations.
 
 Theorem C11_stop_holds_requested_state : forall sp s x,
@@ -50,3 +51,24 @@ Example C11_nonvacuous :
   wf_state (steps sp s [EFire (IResult 0 OOk); EFirePtq 0; EResume; EPause]) = ERROR /\
   ntasks (steps sp s [EFire (IResult 0 OOk); EFirePtq 0]) = ntasks s.
 Proof. vm_compute. repeat split. Qed.
+
+(* a finished workflow is never completed again: the completion methods of the source (their guards
+   translated on every run, Gen/WfGuards.v) return before set_state or are refused - state info,
+   output, completion triggers and the result for the parent are produced at most once *)
+Theorem C11_finished_never_completed_again : forall s,
+  is_completed (wf_state s) = true ->
+  fail_workflow_src s = Some s /\ cancel_workflow_src s = Some s /\
+  (succeed_workflow_src s = Some s \/ succeed_workflow_src s = None).
+Proof. exact finished_never_completed_again. Qed.
+Print Assumptions C11_finished_never_completed_again.
+
+Theorem C11_completion_methods_as_modelled : forall s,
+  fail_workflow_src s = fail_workflow s /\ cancel_workflow_src s = cancel_workflow s /\
+  succeed_workflow_src s = succeed_workflow s.
+Proof. exact completion_methods_as_modelled. Qed.
+Print Assumptions C11_completion_methods_as_modelled.
+
+Theorem C11_stop_on_finished_changes_nothing : forall s x s1,
+  is_completed (wf_state s) = true -> stop_workflow s x = Some s1 -> s1 = s.
+Proof. exact stop_on_finished_changes_nothing. Qed.
+Print Assumptions C11_stop_on_finished_changes_nothing.
